@@ -181,6 +181,12 @@ func c20LimitLineDirectives(f *c20File) {
 			c20NoLineDirectives(it.Doc)
 		}
 		c20NoLineDirectives(it.Inner)
+		if it.Trail != nil {
+			// the block form (/*line f:n:c*/) takes effect wherever it stands, also at the end of a line
+			tl := []c20Line{*it.Trail}
+			c20NoLineDirectives(tl)
+			*it.Trail = tl[0]
+		}
 	}
 }
 
@@ -586,7 +592,7 @@ var (
 	c20IdentRe   = regexp.MustCompile(`^[A-Za-z][A-Za-z0-9_]*$`)
 	c20DirSegRe  = regexp.MustCompile(`^[a-z][a-z0-9_]*$`)
 	c20FileRe    = regexp.MustCompile(`^[A-Za-z0-9][A-Za-z0-9_.~]*$`)
-	c20SymRe     = regexp.MustCompile(`^[^\s]+$`)
+	c20SymRe     = regexp.MustCompile(`^[^\s]([^\t\n\r]*[^\s])?$`) // no blank at either end, no tab or line break inside
 	c20BlanksRe  = regexp.MustCompile(`^[ \t]+$`)
 	c20OSArchRe  = regexp.MustCompile(`_(aix|android|darwin|dragonfly|freebsd|illumos|ios|js|linux|netbsd|openbsd|plan9|solaris|wasip1|windows|unix|386|amd64|arm|arm64|loong64|mips|mips64|mips64le|mipsle|ppc64|ppc64le|riscv64|s390x|wasm)(_test)?\.go$`)
 	c20Forbidden = map[string]bool{"init": true, "main": true, "_": true}
@@ -1080,7 +1086,10 @@ func c20RunKernel() *vlib.Failure {
 var (
 	c20SymPkgs  = []string{"runtime", "runtime", "runtime/internal/sys", "runtime/internal/atomic", "main", "sync", "internal/cpu", "reflect"}
 	c20SymNames = []string{"init", "sysReserve", "sysMap", "sysAlloc", "nanotime", "getRandomData", "gopanic", "throw", "mallocgc",
-		"(*mcache).refill", "newproc1", "memmove", "x", "µs", "init.0", "gcenable.func1", "lock2"}
+		"(*mcache).refill", "newproc1", "memmove", "x", "µs", "init.0", "gcenable.func1", "lock2",
+		// linker symbols contain blanks too (type..eq.[2]interface {}): the symbol is everything
+		// between the directive and the end of the line, less the blanks around it
+		"type..eq.[2]interface {}", "(*T[go.shape.struct { F uintptr }]).m"}
 	c20DirNames  = []string{"mm", "pmm", "vmm", "kfmt", "cpu", "hal", "goruntime", "sync", "kmain", "driver", "video", "console", "tty", "acpi", "aml", "x1", "a_b", "kfmt_test", "testutil", "internal", "test"}
 	c20FileBases = []string{"a", "boot", "mem", "alloc", "panic", "stub", "test", "testing", "xtest", "test_util", "util_test_helper", "go", "doc", "b2"}
 	c20OtherExts = []string{".txt", ".s", ".go.bak", ".gox", ".md", ".go~", ".GO", ".h", "", ".go.orig", ".goo"}
